@@ -1,0 +1,24 @@
+//go:build verif
+// +build verif
+
+package config
+
+func verifC() *config {
+	if globalC == nil {
+		globalC = new(config)
+		globalC.HlsFragment = 5
+	}
+	return globalC
+}
+
+// VerifSetAuth switches permission verification on or off.
+func VerifSetAuth(on bool) { verifC().Auth = on }
+
+// VerifSetCacheGop switches GOP caching on or off (read by media.NewStream).
+func VerifSetCacheGop(on bool) { verifC().CacheGop = on }
+
+// VerifSetHlsFragment sets the HLS segment duration in seconds.
+func VerifSetHlsFragment(sec int) { verifC().HlsFragment = sec }
+
+// VerifSetHlsPath sets the HLS cache directory ("" = memory).
+func VerifSetHlsPath(p string) { verifC().HlsPath = p }
